@@ -100,6 +100,10 @@ var sharedRules = map[string][]sharedRule{
 		{"C14", "C14-cancel", "C15-vesting-cancel", nil,
 			"a cancel returns at most the not-yet-released part, so released plus returned never exceeds what was put into vesting (native supply grows only by vesting releases)"},
 	},
+	"C17": {
+		{"C16", "C16-feeder-removed", "C17-removal-effective", nil,
+			"a governance decision to remove a price feeder must take effect: if the record survives (deactivated), the removed account undoes the decision with its own MsgSetPriceFeeder and writes prices again — the governance-only message was effectively overruled by a non-authority"},
+	},
 	"C18": {
 		{"C04", "C04-batch", "C18-queue-progress", nil,
 			"the end-blocker drains the swap queue in a loop that ends when it is empty: a request must be deleted on the block context whether or not its swap succeeded, or EndBlock never returns"},
